@@ -200,6 +200,45 @@ def op_api_roundtrip(st, hid_new, hid):
     return _info(st, hid_new)
 
 
+def op_api_derive(st, hid_new, hid, seed):
+    """a DIFFERENT object derived through the public API from one that may
+    already carry cached state (hash, key digest): tagged / with_tagged_axis /
+    without_tags on the root or on one named output"""
+    import pytato as pt
+    from . import htags
+    rng = random.Random(f"derive:{seed}")
+    obj = st.h[hid]
+
+    def derive(a):
+        k = rng.random()
+        if k < 0.5 or a.ndim == 0:
+            return a.tagged(htags.HTagB(rng.randint(60, 63)))
+        if k < 0.8:
+            return a.with_tagged_axis(rng.randrange(a.ndim),
+                                      htags.HTagB(rng.randint(60, 63)))
+        if a.tags:
+            return a.without_tags(sorted(a.tags, key=repr)[0])
+        return a.tagged(htags.HTagA())
+    new = None
+    try:
+        if isinstance(obj, pt.DictOfNamedArrays):
+            names = sorted(obj._data)
+            pick = rng.choice(names)
+            new = pt.make_dict_of_named_arrays(
+                {n: (derive(obj._data[n]) if n == pick else obj._data[n])
+                 for n in names}, tags=obj.tags)
+        elif isinstance(obj, pt.Array):
+            new = derive(obj)
+    except Exception:  # noqa: BLE001
+        new = None
+    if new is None:
+        return {"derived": False}
+    st.h[hid_new] = new
+    st.meta[hid_new] = {"origin": ("api-derive", hid)}
+    _taint(st, hid_new, hid)
+    return {"derived": True, **_info(st, hid_new)}
+
+
 def op_hash(st, hid, deep=False):
     obj = st.h[hid]
     if deep:
